@@ -312,7 +312,11 @@ where
 
                 let mut info_hashes_by_worker: BTreeMap<usize, Vec<InfoHash>> = BTreeMap::new();
 
-                for info_hash in info_hashes.into_iter() {
+                // Apply the scrape limit before splitting the request by swarm
+                // worker. Otherwise, it would be applied once per swarm worker.
+                let max_scrape_torrents = self.config.protocol.max_scrape_torrents;
+
+                for info_hash in info_hashes.into_iter().take(max_scrape_torrents) {
                     let info_hashes = info_hashes_by_worker
                         .entry(calculate_request_consumer_index(&self.config, info_hash))
                         .or_default();
